@@ -452,6 +452,10 @@ func Invoke(e *Entry, env *Env, r *world.SimReader) (res *Result) {
 	}
 	defer func() {
 		if p := recover(); p != nil {
+			if hp, ok := p.(hashPanic); ok {
+				res.Panic = hp.pi
+				return
+			}
 			res.Panic = analysePanic(p)
 			if MeasureAlloc && measuring {
 				m1() // the call panicked inside the measured window
